@@ -450,6 +450,10 @@ impl BloomFilter {
         }
 
         let num_words = num_longs as usize;
+        // a non-empty image carries its bit count and every word of the array
+        if !is_empty && (num_words as u128 + 1) * 8 > cursor.remaining() as u128 {
+            return Err(Error::insufficient_data("bit_array"));
+        }
         let mut bit_array = vec![0u64; num_words].into_boxed_slice();
         let num_bits_set;
 
